@@ -443,10 +443,11 @@ func (c *CertChecker) CheckCert(principal string, cert *Certificate) error {
 	}
 
 	unixNow := clock().Unix()
-	if after := int64(cert.ValidAfter); after < 0 || unixNow < int64(cert.ValidAfter) {
+	// ValidAfter and ValidBefore are unsigned 64-bit times, compared as such.
+	if unixNow < 0 || uint64(unixNow) < cert.ValidAfter {
 		return fmt.Errorf("ssh: cert is not yet valid")
 	}
-	if before := int64(cert.ValidBefore); cert.ValidBefore != uint64(CertTimeInfinity) && (unixNow >= before || before < 0) {
+	if cert.ValidBefore != uint64(CertTimeInfinity) && uint64(unixNow) >= cert.ValidBefore {
 		return fmt.Errorf("ssh: cert has expired")
 	}
 	// Match OpenSSH: the SK user-presence flag is never enforced on a
